@@ -14,8 +14,12 @@ package router
 //@   requires[base] r != nil
 //@   requires[C14]  tag(route) != 0 && r.routes != nil
 //@   ensures[C14]   old(routesNonNil(r)) ==> routesNonNil(r)
-//@   modifies mapof(r.routes)
+//@   modifies mapof(r.routes), route_id
 //@   ensures[C05] old(r.sealed) ==> err != nil
+//   the route is filed under the identifier the controller itself reported (route_id), under no other key
+//@   let rid = route_id
+//@   ensures[C05] err == nil ==> !old(mapHas(r.routes, rid)) && mapHas(r.routes, rid) && mapGet(r.routes, rid) == route &&
+//@                  forall k int :: k != rid ==> mapHas(r.routes, k) == old(mapHas(r.routes, k)) && mapGet(r.routes, k) == old(mapGet(r.routes, k))
 //@   ensures[C05] err != nil ==> forall k int :: mapHas(r.routes, k) == old(mapHas(r.routes, k)) && mapGet(r.routes, k) == old(mapGet(r.routes, k))
 //@   ensures[C05] err == nil ==> exists id int :: !old(mapHas(r.routes, id)) && mapHas(r.routes, id) && mapGet(r.routes, id) == route &&
 //@                  forall k int :: k != id ==> mapHas(r.routes, k) == old(mapHas(r.routes, k)) && mapGet(r.routes, k) == old(mapGet(r.routes, k))
